@@ -491,6 +491,7 @@ type evWorkerProc struct {
 var (
 	evW        *evWorkerProc
 	evRestarts int
+	evServed   int
 	evGaveUp   []string
 )
 
@@ -531,9 +532,18 @@ func evWorkerStart() *evWorkerProc {
 // evRunImpl evaluates the program on the real slip (in the worker). A worker that does not answer
 // within the deadline or dies is observed as kind "hang" / "died".
 func evRunImpl(cs evCase) evObs {
+	// the interpreter keeps every function and global variable ever defined: a fresh worker every few
+	// thousand programs keeps the cost per program flat
+	if evW != nil && evServed >= 3000 {
+		_ = evW.in.Close()
+		_ = evW.cmd.Wait()
+		evW = nil
+	}
 	if evW == nil {
 		evW = evWorkerStart()
+		evServed = 0
 	}
+	evServed++
 	w := evW
 	giveUp := func(kind string) evObs {
 		_ = w.cmd.Process.Kill()
